@@ -6,6 +6,7 @@ import TantivyModel.Proofs.LeafTree
 import TantivyModel.Proofs.JsonRange
 import TantivyModel.Proofs.PhraseAlign
 import TantivyModel.Proofs.PhraseExact
+import TantivyModel.Gen.PhraseScorer
 /-!
 # C03 — Queries match exactly the documents their logical meaning prescribes
 
@@ -416,6 +417,35 @@ theorem C03_range_paths_agree (w : Nat) (lo hi : BndN) (v : Nat) (hv : v < 256 ^
   cases lo <;> cases hi <;> simp only [bndBe, bndBelow] at hlo hhi ⊢ <;>
     simp [L, R, hlo, hhi] <;> rw [Bool.eq_iff_iff] <;> simp <;> omega
 
+/-! ## the phrase scorer's per-document state -/
+
+/-- does `compute_phrase_match` clear `left_slops` before folding a document's terms? (read from
+the source by `extract/items/boolweight.py`; the extraction fails if the reset moves) -/
+def phraseSlopsReset : Bool := Gen.PHRASE_LEFT_SLOPS_RESET_AT_START == 1
+
+/-- a sloppy phrase scorer driven over any sequence of candidate documents, from any initial
+state: with the reset at the start of `compute_phrase_match` (the extracted guard) the answer for
+each document is the per-document function `phraseOff` / `phraseOn` — nothing leaks from one
+document to the next, on the scoring and on the no-scoring path. (This is what allows `leafTree`
+and the harness to evaluate the slop algorithms document by document.) -/
+theorem C03_phrase_slops_no_leak (hreset : phraseSlopsReset = true) (slop : Nat)
+    (docs : List (List (List Nat))) (st : List Nat) :
+    PhraseSlop.runSteps (PhraseSlop.offStep phraseSlopsReset slop) st docs = docs.map (PhraseSlop.phraseOff · slop)
+      ∧ PhraseSlop.runSteps (PhraseSlop.onStep phraseSlopsReset slop) st docs
+          = docs.map (PhraseSlop.phraseOn · slop) := by
+  rw [hreset]
+  exact PhraseSlop.runSteps_reset slop docs st
+
+/-- the guard holds for the source as it is now -/
+theorem C03_phrase_slops_reset_extracted : phraseSlopsReset = true := by decide
+
+/-- without the reset the carried slops of "a b … c" (document 1) make the scorer miss the exact
+occurrence "a b c" in document 2 on the no-scoring path -/
+theorem C03_phrase_slops_leak_counterexample :
+    PhraseSlop.runSteps (PhraseSlop.offStep false 1) [] [[[0], [1], [5]], [[3], [4], [4]]] = [false, false]
+      ∧ [[[0], [1], [5]], [[3], [4], [4]]].map (PhraseSlop.phraseOff · 1) = [false, true] := by
+  decide
+
 /-! ## exact phrases of any length: the sorted-merge intersections -/
 
 /-- slop 0, any number (≥ 2) of terms, in whatever order the scorer processes them (a permutation
@@ -519,20 +549,40 @@ theorem C03_phrase_prefix_gap (d : ADoc) (f : Nat) (t pre : Bytes) (g : Nat) :
 
 /-! ## range over a numeric JSON path: bound type × column type -/
 
-/-- `search_on_json_numerical_field`, integer bounds on integer columns: for every bound kind
-(inclusive / exclusive / unbounded), bound type (i64 / u64 term) and column type (i64 / u64) the
-converted bounds select exactly the values of the column that satisfy the numeric meaning of the
-range — except for a u64 lower bound above i64::MAX on an i64 column (`lowerOk`, next theorem).
-In particular a negative i64 upper bound on a u64 column selects nothing (`Excluded(0)`), a
-negative lower bound everything, a u64 upper bound above i64::MAX on an i64 column everything. -/
-theorem C03_json_int_range_coercion_partial (col : JsonRange.ColT) (lo hi : JsonRange.B) (v : Int)
-    (hv : JsonRange.inCol col v) (hlo : lo.wf) (hhi : hi.wf) (hok : JsonRange.lowerOk col lo = true) :
+/-- `search_on_json_numerical_field` + `transform_from_f64_bounds`: for every bound kind (inclusive /
+exclusive / unbounded), bound type (i64 / u64 / f64 term; f64 values h/2 with |h| < 2^53) and integer
+column type (i64 / u64) the converted bounds select exactly the values of the column that satisfy the
+numeric meaning of the range — except for the combinations excluded by `lowerOk` / `upperOk`
+(counterexamples below). In particular a negative i64 upper bound on a u64 column selects nothing
+(`Excluded(0)`), a negative lower bound everything, a u64 upper bound above i64::MAX on an i64 column
+everything, a negative fractional f64 lower bound and a positive fractional f64 upper bound are
+truncated inward. -/
+theorem C03_json_range_coercion_partial (col : JsonRange.ColT) (lo hi : JsonRange.B) (v : Int)
+    (hv : JsonRange.inCol col v) (hlo : lo.wf) (hhi : hi.wf)
+    (hokl : JsonRange.lowerOk col lo = true) (hoku : JsonRange.upperOk col hi = true) :
     JsonRange.implMatch col lo hi v = JsonRange.specMatch lo hi v := by
   unfold JsonRange.implMatch JsonRange.coerce
-  rw [JsonRange.inRangeN_eq, JsonRange.specMatch_eq, JsonRange.lower_exact col lo v hv hlo hok,
-    JsonRange.upper_exact col hi v hv hhi]
+  rw [JsonRange.inRangeN_eq, JsonRange.specMatch_eq, JsonRange.lower_exact col lo v hv hlo hokl,
+    JsonRange.upper_exact col hi v hv hhi hoku]
 
-/-- the excluded combination is really wrong in the pinned code: `attrs.n:[9223372036854775808 TO *]`
+/-- integer-typed bounds (i64 / u64 terms): only the lower-bound condition remains -/
+theorem C03_json_int_range_coercion_partial (col : JsonRange.ColT) (lo hi : JsonRange.B) (v : Int)
+    (hv : JsonRange.inCol col v) (hlo : lo.wf) (hhi : hi.wf) (hok : JsonRange.lowerOk col lo = true)
+    (hint : ∀ h, hi ≠ .incl (.f h) ∧ hi ≠ .excl (.f h)) :
+    JsonRange.implMatch col lo hi v = JsonRange.specMatch lo hi v := by
+  apply C03_json_range_coercion_partial col lo hi v hv hlo hhi hok
+  cases hi with
+  | unb => rfl
+  | incl x => cases x with
+    | f h => exact absurd rfl (hint h).1
+    | i w => rfl
+    | u w => rfl
+  | excl x => cases x with
+    | f h => exact absurd rfl (hint h).2
+    | i w => rfl
+    | u w => rfl
+
+/-- the excluded u64 combination is really wrong in the pinned code: `attrs.n:[9223372036854775808 TO *]`
 (a u64 term) on a path whose column is i64 is converted to `Excluded(i64::MAX as u64)` in the
 column's *encoded* space, i.e. to "value ≥ 0", instead of "nothing" -/
 theorem C03_json_u64_lower_bound_on_i64_column_counterexample :
@@ -540,6 +590,20 @@ theorem C03_json_u64_lower_bound_on_i64_column_counterexample :
       ∧ JsonRange.specMatch (.incl (.u (2 ^ 63))) .unb 5 = false
       ∧ JsonRange.implMatch .i64 (.incl (.u (2 ^ 63))) .unb (-5) = false
       ∧ JsonRange.lowerOk .i64 (.incl (.u (2 ^ 63))) = false := by
+  decide
+
+/-- the excluded f64 combinations are really wrong in the pinned code: an upper bound -1.5 on a
+u64 column becomes Unbounded (0 matches `[* TO -1.5]`); a lower bound 2.5 becomes Included(2)
+(2 matches `[2.5 TO *]`); an upper bound -2.5 on an i64 column becomes Included(-2) -/
+theorem C03_json_f64_bound_counterexamples :
+    JsonRange.implMatch .u64 .unb (.incl (.f (-3))) 0 = true
+      ∧ JsonRange.specMatch .unb (.incl (.f (-3))) 0 = false
+      ∧ JsonRange.implMatch .i64 (.incl (.f 5)) .unb 2 = true
+      ∧ JsonRange.specMatch (.incl (.f 5)) .unb 2 = false
+      ∧ JsonRange.implMatch .i64 .unb (.incl (.f (-5))) (-2) = true
+      ∧ JsonRange.specMatch .unb (.incl (.f (-5))) (-2) = false
+      ∧ JsonRange.upperOk .u64 (.incl (.f (-3))) = false ∧ JsonRange.lowerOk .i64 (.incl (.f 5)) = false
+      ∧ JsonRange.upperOk .i64 (.incl (.f (-5))) = false := by
   decide
 
 /-! ## non-vacuity -/
@@ -597,8 +661,9 @@ example : OrderEnc.f64Key (BitVec.ofNat 64 (2^63)) < OrderEnc.f64Key (BitVec.ofN
 example : (300 : Nat) < 256 ^ 2 ∧ OrderEnc.be 2 300 = [1, 44] := by decide
 example : bndBelow 2 (BndN.incl 300) := by show 300 < 256 ^ 2; decide
 example : JsonRange.inCol .u64 0 ∧ (JsonRange.B.excl (.i (-3))).wf ∧ JsonRange.lowerOk .u64 (.excl (.i (-3))) = true
-    ∧ JsonRange.implMatch .u64 .unb (.excl (.i (-3))) 0 = false := by
-  refine ⟨?_, ?_, by decide, by decide⟩
+    ∧ JsonRange.implMatch .u64 .unb (.excl (.i (-3))) 0 = false
+    ∧ JsonRange.upperOk .u64 (.excl (.i (-3))) = true ∧ JsonRange.upperOk .i64 (.incl (.f 5)) = true := by
+  refine ⟨?_, ?_, by decide, by decide, by decide, by decide⟩
   · show (0 : Int) ≤ 0 ∧ (0 : Int) < 2 ^ 64
     decide
   · show -(2 ^ 63) ≤ (-3 : Int) ∧ (-3 : Int) ≤ JsonRange.I64MAX
